@@ -2,6 +2,7 @@ import DrummerVerif.Lemmas.C05
 import DrummerVerif.Lemmas.C05H
 import DrummerVerif.Lemmas.C05L
 import DrummerVerif.Bridge.Bridge
+import DrummerVerif.Lemmas.C05S
 /-!
 # C05 — failure detection: replica classes and shard availability follow report history
 
@@ -121,6 +122,38 @@ theorem code_liveFilter :
     ∀ (t gap : Nat) (hs : List HostSpec),
     Gen.liveFilter_filter t gap hs = List.filter (liveFilter t gap) hs :=
   @_root_.Drummer.bridge_liveFilter
+
+/-! ### detection over whole histories: a member that is no longer reported keeps its report time and is classified
+    failed once the timeout has passed on the logical clock - whatever else is applied in between -/
+
+/-- along ANY command history in which no report lists replica `rid` of shard `s` (ticks, other NodeHosts' reports in
+any order, request batches, KV writes, definitions - any number), every record the final views hold for it is one the
+initial views held for it (same report time, same first-seen time), or has no report time at all (a member added anew) -/
+theorem silent_member_keeps_its_record :
+    ∀ (cs : List Cmd) (d d' : DB), runCmds d cs = Outcome.ok d' → ∀ (s rid : Nat),
+      (∀ c ∈ cs, ¬ Cmd.lists s rid c) →
+      ∀ c' ∈ d'.image.shards, c'.shardId = s → ∀ r' ∈ c'.replicas, r'.replicaId = rid →
+        (∃ c ∈ d.image.shards, c.shardId = s ∧ ∃ r ∈ c.replicas,
+          r.replicaId = r'.replicaId ∧ r.tick = r'.tick ∧ r.firstObserved = r'.firstObserved) ∨ r'.tick = 0 :=
+  @_root_.Drummer.silent_member_keeps_its_record
+
+/-- the logical clock is the number of tick commands applied, times the fixed step (time advances only by ticks) -/
+theorem clock_counts_ticks :
+    ∀ (cs : List Cmd) (d d' : DB), runCmds d cs = Outcome.ok d' → d'.tick = d.tick + ticksIn cs * tickInterval :=
+  @_root_.Drummer.clock_counts_ticks
+
+/-- **a silent member is detected**: last reported at the positive time `t0`, then any history without a report listing
+it whose ticks carry the clock more than the failure timeout past `t0`: whatever record the views hold for it at the end
+is classified failed (or belongs to a member added anew, with no report time). -/
+theorem silent_member_is_detected :
+    ∀ (cs : List Cmd) (d d' : DB), runCmds d cs = Outcome.ok d' → ∀ (s rid t0 : Nat),
+      (∀ c ∈ cs, ¬ Cmd.lists s rid c) →
+      (∀ c ∈ d.image.shards, c.shardId = s → ∀ r ∈ c.replicas, r.replicaId = rid → r.tick = t0) →
+      0 < t0 → t0 ≤ d.tick → d'.tick < 18446744073709551616 →
+      d.tick + ticksIn cs * tickInterval - t0 > nodeHostTTL →
+      ∀ c' ∈ d'.image.shards, c'.shardId = s → ∀ r' ∈ c'.replicas, r'.replicaId = rid →
+        Replica.failed r' d'.tick = true ∨ r'.tick = 0 :=
+  @_root_.Drummer.silent_member_is_detected
 
 end C05
 end Drummer
